@@ -24,9 +24,11 @@ type c11Case struct {
 	Run         *rsCase  `json:"run"`
 	RemovedLib  []string `json:"removed_from_library"`
 	RemovedInst []string `json:"removed_from_instance"`
+	// More: facts of further FetchMatchingRules calls made on the same instance
+	More []*facts.State `json:"facts_of_further_calls_on_the_same_instance,omitempty"`
 }
 
-func c11Run(c *val.Case, removedLib, removedInst []string) ([]string, map[string]interface{}, error) {
+func c11Run(c *val.Case, removedLib, removedInst []string, more ...*facts.State) ([]string, map[string]interface{}, error) {
 	prep, err := val.Prepare(c)
 	if err != nil {
 		return nil, nil, err
@@ -41,7 +43,26 @@ func c11Run(c *val.Case, removedLib, removedInst []string) ([]string, map[string
 	for _, n := range removedInst {
 		kb.RemoveRuleEntry(n)
 	}
-	return c11RunOn(c, prep, kb, removedLib, removedInst)
+	v, info, err := c11RunOn(c, prep, kb, removedLib, removedInst)
+	if err != nil || len(v) > 0 {
+		return v, info, err
+	}
+	// the instance answers further calls with other facts
+	for i, st := range more {
+		c2 := *c
+		c2.Init = st
+		v2, _, err2 := c11RunOn(&c2, prep, kb, removedLib, removedInst)
+		if err2 != nil {
+			return nil, info, err2
+		}
+		for _, m := range v2 {
+			v = append(v, fmt.Sprintf("call %d on the same instance (other facts): %s", i+2, m))
+		}
+		if len(v) > 0 {
+			break
+		}
+	}
+	return v, info, nil
 }
 
 // c11RunOn checks one FetchMatchingRules call on the given instance.
@@ -160,7 +181,7 @@ func keysOf(m map[string]bool) []string {
 }
 
 func TestC11(t *testing.T) {
-	col := stats.New("C11", "rule sets of 1-8 rules with generated conditions (true, false, and conditions that fail to evaluate: index/key out of range, missing field/fact, nil pointer, panicking/unknown method, modulo zero, kind mismatch), saliences with ties and int32 limits, action lists containing counted probe statements, and 0-2 rules removed from the library blueprint or from the instance; both settings of ReturnErrOnFailedRuleEvaluation. Oracle: the returned names as a multiset equal the non-removed rules whose condition is true when evaluated by a fresh single-rule engine on the same facts; saliences are non-increasing and equal the declared ones; the complete fact data is deep-equal before and after; no action probe fires; with the flag set an error is returned exactly when some non-removed rule's condition fails. Non-trivial: at least 2 matching rules of different salience and at least 1 non-matching rule. Distinct by rule text + state + removed set + flag.")
+	col := stats.New("C11", "rule sets of 1-8 rules with generated conditions (true, false, and conditions that fail to evaluate: index/key out of range, missing field/fact, nil pointer, panicking/unknown method, modulo zero, kind mismatch), saliences with ties and int32 limits, action lists containing counted probe statements, and 0-2 rules removed from the library blueprint or from the instance; in a third of the cases the same instance then answers 1-3 further calls with other facts; both settings of ReturnErrOnFailedRuleEvaluation. Oracle: the returned names as a multiset equal the non-removed rules whose condition is true when evaluated by a fresh single-rule engine on the same facts; saliences are non-increasing and equal the declared ones; the complete fact data is deep-equal before and after; no action probe fires; with the flag set an error is returned exactly when some non-removed rule's condition fails. Non-trivial: at least 2 matching rules of different salience and at least 1 non-matching rule. Distinct by rule text + state + removed set + flag.")
 	defer col.Flush()
 	rc := fullRuleCfg()
 	rc.Forget = false
@@ -208,7 +229,14 @@ func TestC11(t *testing.T) {
 				remInst = append(remInst, n)
 			}
 		}
-		v, info, err := c11Run(c, remLib, remInst)
+		var more []*facts.State
+		if rapid.IntRange(0, 2).Draw(rt, "further_calls") == 0 {
+			for i, n := 0, rapid.IntRange(1, 3).Draw(rt, "nfurther"); i < n; i++ {
+				more = append(more, c08GenState(rt, rs, rc.State))
+			}
+			labels = append(labels, "further_calls_on_the_same_instance")
+		}
+		v, info, err := c11Run(c, remLib, remInst, more...)
 		if err != nil {
 			rt.Fatalf("harness: %v\n%s", err, c.Text)
 		}
@@ -236,7 +264,7 @@ func TestC11(t *testing.T) {
 		}
 		if len(v) > 0 {
 			msg := strings.Join(v, "\n") + "\n--- rules ---\n" + gast.RulesString(c.Rules) + fmt.Sprintf("%v", info)
-			path := col.Violation("C11", "C11/"+firstWords(v[0]), msg, c11Case{Run: toRSCase(c), RemovedLib: remLib, RemovedInst: remInst})
+			path := col.Violation("C11", "C11/"+firstWords(v[0]), msg, c11Case{Run: toRSCase(c), RemovedLib: remLib, RemovedInst: remInst, More: more})
 			rt.Fatalf("C11 violated: %s (replay %s)", msg, path)
 		}
 	})
@@ -253,7 +281,7 @@ func init() {
 			return err
 		}
 		for i := 0; i < 16; i++ {
-			v, _, err := c11Run(c, cc.RemovedLib, cc.RemovedInst)
+			v, _, err := c11Run(c, cc.RemovedLib, cc.RemovedInst, cc.More...)
 			if err != nil {
 				return err
 			}
